@@ -122,6 +122,9 @@ func (r *Run) Incomplete(what string) {
 }
 
 func (r *Run) loadKnown() {
+	if os.Getenv("VERIF_NO_KNOWN") != "" {
+		return // diagnostic runs: show every violation key, suppress nothing
+	}
 	b, err := os.ReadFile(filepath.Join(Root, "known_findings.jsonl"))
 	if err != nil {
 		return
